@@ -323,17 +323,30 @@ func reposStage(dir string, seed uint64, tier string) error {
 	if tier == "thorough" {
 		n = 2500
 	}
-	for i := 0; i < n; i++ {
+	gen := func() []*repoCall {
 		var calls []*repoCall
 		nc := 1 + r.Intn(5)
+		// most histories keep coming back to a small set of repositories, so that the cache is exercised
+		pool := []int{0, 1, 2, 3, 4, 5, 6, 7, 8, 9}
+		for k := len(pool) - 1; k > 0; k-- {
+			l := r.Intn(k + 1)
+			pool[k], pool[l] = pool[l], pool[k]
+		}
+		if r.Chance(2, 3) {
+			pool = pool[:2+r.Intn(3)]
+		}
 		for j := 0; j < nc; j++ {
 			c := &repoCall{}
-			perm := []int{0, 1, 2, 3, 4, 5, 6, 7, 8, 9}
+			perm := append([]int{}, pool...)
 			for k := len(perm) - 1; k > 0; k-- {
 				l := r.Intn(k + 1)
 				perm[k], perm[l] = perm[l], perm[k]
 			}
-			c.Repos = perm[:1+r.Intn(3)]
+			nr := 1 + r.Intn(3)
+			if nr > len(perm) {
+				nr = len(perm)
+			}
+			c.Repos = perm[:nr]
 			if r.Chance(2, 3) {
 				if r.Chance(1, 3) {
 					c.Keys = append(c.Keys, A2)
@@ -351,13 +364,132 @@ func reposStage(dir string, seed uint64, tier string) error {
 				}
 			}
 			if r.Chance(1, 10) { // an exemption for a repository that is not part of the call
-				c.Exempt = append(c.Exempt, perm[9])
+				c.Exempt = append(c.Exempt, perm[len(perm)-1])
 			}
 			calls = append(calls, c)
 		}
-		if err := add(calls, fmt.Sprintf("generated/%d-calls", nc), ""); err != nil {
+		return calls
+	}
+	hist := map[string]int{}
+	runGen := func(calls []*repoCall, label string) error {
+		for _, f := range w.historyFeatures(calls) {
+			hist[f]++
+		}
+		return add(calls, fmt.Sprintf("generated/%d-calls", len(calls)), label)
+	}
+	for i := 0; i < n; i++ {
+		if err := runGen(gen(), ""); err != nil {
 			return err
 		}
 	}
+	// every kind of context change on a cached repository occurs among the generated histories of every run
+	var missing []string
+	for _, f := range requiredHistoryFeatures {
+		for tries := 0; hist[f] == 0 && tries < 20000; tries++ {
+			calls := gen()
+			for _, g := range w.historyFeatures(calls) {
+				if g == f {
+					if err := runGen(calls, "directed: "+f); err != nil {
+						return err
+					}
+					break
+				}
+			}
+		}
+		if hist[f] == 0 {
+			missing = append(missing, f)
+		}
+	}
+	wr.Extra = map[string]any{"history_histogram_generated": hist, "required_history_shapes_missing": missing}
+	if len(missing) > 0 {
+		return fmt.Errorf("generator cannot produce the history shapes %v", missing)
+	}
 	return wr.Flush()
+}
+
+// what a history exercises: for every repository that a later call asks for again, how the verification context of the
+// request changed between the two calls, on which kind of repository and transport; plus per-call shapes
+func (w *reposWorld) historyFeatures(calls []*repoCall) []string {
+	seen := map[string]bool{}
+	var fs []string
+	add := func(f string) {
+		if !seen[f] {
+			seen[f] = true
+			fs = append(fs, f)
+		}
+	}
+	ctx := func(c *repoCall, x int) string {
+		if c.Ignore {
+			return "unverified"
+		}
+		for _, e := range c.Exempt {
+			if e == x {
+				return "unverified"
+			}
+		}
+		ks := append([]string{}, c.Keys...)
+		sort.Strings(ks)
+		return "keys:" + strings.Join(ks, ",")
+	}
+	authorised := func(c *repoCall, x int) bool {
+		if ctx(c, x) == "unverified" {
+			return true
+		}
+		for _, k := range c.Keys {
+			if k == w.specs[x].signer {
+				return true
+			}
+		}
+		return false
+	}
+	last := map[int]*repoCall{}
+	for _, c := range calls {
+		add(fmt.Sprintf("repos-in-call=%d", len(c.Repos)))
+		add(fmt.Sprintf("keys-in-call=%d", len(c.Keys)))
+		for _, x := range c.Repos {
+			sp := w.specs[x]
+			add("repo=" + sp.kind + "/" + sp.transport)
+			if p, ok := last[x]; ok {
+				a, b := ctx(p, x), ctx(c, x)
+				var ch string
+				switch {
+				case a == b:
+					ch = "same-context"
+				case a == "unverified":
+					ch = "unverified-then-verified"
+				case b == "unverified":
+					ch = "verified-then-unverified"
+				default:
+					ch = "other-keys"
+					pa, pb := strings.Contains(a, "alice.rsa.pub#2"), strings.Contains(b, "alice.rsa.pub#2")
+					qa, qb := strings.Contains(strings.ReplaceAll(a, "alice.rsa.pub#2", ""), "alice.rsa.pub"), strings.Contains(strings.ReplaceAll(b, "alice.rsa.pub#2", ""), "alice.rsa.pub")
+					if (pa && qb) || (qa && pb) {
+						add("again:same-key-name-other-bytes")
+					}
+				}
+				cached := "cached"
+				if sp.transport == "http-noetag" {
+					cached = "uncached"
+				}
+				add("again:" + ch)
+				add("again:" + ch + "/" + cached)
+				if authorised(p, x) && !authorised(c, x) {
+					add("again:authorised-then-not/" + cached)
+				}
+				if !authorised(p, x) && authorised(c, x) {
+					add("again:refused-then-authorised/" + cached)
+				}
+			}
+			last[x] = c
+		}
+	}
+	return fs
+}
+
+var requiredHistoryFeatures = []string{
+	"again:same-context/cached", "again:unverified-then-verified/cached", "again:verified-then-unverified/cached", "again:other-keys/cached",
+	"again:same-key-name-other-bytes", "again:authorised-then-not/cached", "again:refused-then-authorised/cached",
+	"again:unverified-then-verified/uncached", "again:authorised-then-not/uncached",
+	"repo=signed/local", "repo=signed/http-etag", "repo=signed/http-noetag", "repo=unsigned/local", "repo=unsigned/http-etag",
+	"repo=spliced/local", "repo=spliced/http-noetag", "keys-in-call=0", "keys-in-call=1", "keys-in-call=2", "repos-in-call=1", "repos-in-call=3",
 }
